@@ -1776,6 +1776,27 @@ func (n *node) spawn(factory gen.ProcessFactory, options gen.ProcessOptionsExtra
 func (n *node) unregisterProcess(p *process, reason error) {
 	lib.VerifPoint("unreg.delete", p)
 	n.processes.Delete(p.pid)
+
+	// release the name, the aliases and the events of this process before anybody is
+	// notified about its termination: whoever reacts to the notification (e.g. a supervisor
+	// restarting this child) must be able to claim them again
+	named := false
+	pname := gen.ProcessID{Name: p.name, Node: n.name}
+	if p.registered.Load() {
+		// delete the name only if it still belongs to this process
+		named = n.names.CompareAndDelete(p.name, p)
+	}
+	for _, a := range p.aliases {
+		n.aliases.Delete(a)
+	}
+	events := []gen.Event{}
+	p.events.Range(func(k, _ any) bool {
+		ev := gen.Event{Name: k.(gen.Atom), Node: p.node.name}
+		n.events.Delete(ev)
+		events = append(events, ev)
+		return true
+	})
+
 	lib.VerifPoint("unreg.drain", p)
 	n.RouteTerminatePID(p.pid, reason)
 
@@ -1786,27 +1807,19 @@ func (n *node) unregisterProcess(p *process, reason error) {
 	n.log.Trace("...unregisterProcess %s", p.pid)
 
 	lib.VerifPoint("unreg.name", p)
-	if p.registered.Load() {
-		// delete the name only if it still belongs to this process
-		if n.names.CompareAndDelete(p.name, p) {
-			pname := gen.ProcessID{Name: p.name, Node: n.name}
-			n.RouteTerminateProcessID(pname, reason)
-		}
+	if named {
+		n.RouteTerminateProcessID(pname, reason)
 	}
 
 	lib.VerifPoint("unreg.alias", p)
 	for _, a := range p.aliases {
-		n.aliases.Delete(a)
 		n.RouteTerminateAlias(a, reason)
 	}
 
 	lib.VerifPoint("unreg.event", p)
-	p.events.Range(func(k, _ any) bool {
-		ev := gen.Event{Name: k.(gen.Atom), Node: p.node.name}
-		n.events.Delete(ev)
+	for _, ev := range events {
 		n.RouteTerminateEvent(ev, reason)
-		return true
-	})
+	}
 
 	lib.VerifPoint("unreg.meta", p)
 	// send exit signal to the meta processes
